@@ -7,6 +7,8 @@
 #include <sys/resource.h>
 #include <sys/types.h>
 #include <sys/wait.h>
+#include <execinfo.h>
+#include <fcntl.h>
 #include <poll.h>
 #include <signal.h>
 #include <unistd.h>
@@ -220,6 +222,30 @@ namespace vf {
         return fd;
     }
 
+    inline int& crash_fd()
+    {
+        static int fd = -1;
+        return fd;
+    }
+    inline void crash_handler(int sig)
+    {
+        // best effort: symbolic backtrace of the faulting thread into the crash file, then die by the signal
+        int fd = crash_fd();
+        if (fd >= 0)
+        {
+            void* frames[48];
+            int n = backtrace(frames, 48);
+            backtrace_symbols_fd(frames, n, fd);
+        }
+        signal(sig, SIG_DFL);
+        raise(sig);
+    }
+    inline std::string crash_path(pid_t pid)
+    {
+        char const* d = std::getenv("VERIF_CRASH_DIR");
+        return std::string(d ? d : "/tmp") + "/vf-crash-" + std::to_string(pid) + ".bt";
+    }
+
     inline Outcome run_forked(Target const& T, tape_t const& tape)
     {
         int fds[2];
@@ -235,6 +261,19 @@ namespace vf {
             struct rlimit rl { 0, 0 };
             setrlimit(RLIMIT_CORE, &rl);
             child_fd() = fds[1];
+            crash_fd() = open(crash_path(getpid()).c_str(), O_CREAT | O_WRONLY | O_TRUNC, 0644);
+            {
+                void* warm[2];
+                backtrace(warm, 2);    // load libgcc now, not inside the handler
+                struct sigaction sa;
+                std::memset(&sa, 0, sizeof sa);
+                sa.sa_handler = crash_handler;
+                sigaction(SIGSEGV, &sa, nullptr);
+                sigaction(SIGBUS, &sa, nullptr);
+                sigaction(SIGABRT, &sa, nullptr);
+                sigaction(SIGFPE, &sa, nullptr);
+                sigaction(SIGILL, &sa, nullptr);
+            }
             Outcome o;
             try
             {
@@ -285,6 +324,7 @@ namespace vf {
             kill(-pid, SIGKILL);
             kill(pid, SIGKILL);
             waitpid(pid, &status, 0);
+            unlink(crash_path(pid).c_str());
             Outcome o;
             // a partial/complete verdict written before the hang still counts
             if (Outcome::parse(buf, o) && o.kind == Outcome::FAIL) return o;
@@ -305,6 +345,32 @@ namespace vf {
         kill(-pid, SIGKILL);    // reap stragglers in the group, if any
         Outcome o;
         bool parsed = Outcome::parse(buf, o);
+        std::string bt;
+        {
+            std::string cp = crash_path(pid);
+            std::ifstream cf(cp);
+            if (cf)
+            {
+                std::stringstream ss;
+                ss << cf.rdbuf();
+                bt = ss.str();
+                // keep the function names only
+                std::string shortbt;
+                std::istringstream is(bt);
+                std::string line;
+                int nl = 0;
+                while (std::getline(is, line) && nl < 14)
+                {
+                    auto a = line.find('('), b = line.find('+', a == std::string::npos ? 0 : a);
+                    std::string fn = (a != std::string::npos && b != std::string::npos && b > a + 1) ? line.substr(a + 1, b - a - 1) : line.substr(line.find_last_of('/') == std::string::npos ? 0 : line.find_last_of('/') + 1);
+                    if (fn.size() > 110) fn = fn.substr(0, 110);
+                    shortbt += (nl ? " <- " : "") + fn;
+                    ++nl;
+                }
+                bt = shortbt;
+            }
+            unlink(cp.c_str());
+        }
         if (parsed) return o;
         if (WIFSIGNALED(status))
         {
@@ -314,7 +380,7 @@ namespace vf {
                 o.kind = Outcome::INCONCLUSIVE; o.msg = "child killed (SIGKILL) without verdict"; return o;
             }
             return Outcome::fail(std::string("crash_signal_") + std::to_string(sig),
-                std::string("case process died by signal ") + std::to_string(sig) + " (" + strsignal(sig) + ")");
+                std::string("case process died by signal ") + std::to_string(sig) + " (" + strsignal(sig) + ")" + (bt.empty() ? "" : " backtrace: " + bt));
         }
         if (WIFEXITED(status))
             return Outcome::fail("crash_exit", "case process exited with status " + std::to_string(WEXITSTATUS(status)) + " without a verdict");
@@ -417,6 +483,8 @@ namespace vf {
             tape_t t = parse_tape_from_json(ss.str());
             int times = std::atoi(arg_of(argc, argv, "--times", T.forked ? "20" : "1").c_str());
             std::printf("case: %s\n", T.describe(t).c_str());
+            std::fflush(stdout);
+            if (has_flag(argc, argv, "--describe")) return 0;
             int fails = 0, inc = 0;
             Outcome lastf;
             if (has_flag(argc, argv, "--nofork"))
